@@ -133,7 +133,19 @@ func runC03(c *fw.Ctx, idx int) fw.Result {
 			recs = append(recs, gen.FastaRec{ID: id, Desc: desc, Seq: s})
 		}
 	}
-	refText := gen.RefFasta("reference", ref, gen.PickLineWidth(r, len(ref)))
+	refName := "reference"
+	if r.Chance(0.3) {
+		refName = []string{"MN908947.3", "ref", "NC_045512.2 Severe acute respiratory syndrome coronavirus 2"}[r.Intn(3)]
+	}
+	if len(recs) > 0 && r.Chance(0.15) {
+		// a query that carries the reference file's ID (a resequenced reference strain, or the
+		// reference itself left in the alignment) is an ordinary query: its row lists its own SNPs
+		k := r.Intn(len(recs))
+		recs[k].ID = strings.Fields(refName)[0]
+		recs[k].Desc = recs[k].ID + []string{"", " resequenced"}[r.Intn(2)]
+		res.Count("cases_with_query_named_like_reference", 1)
+	}
+	refText := gen.RefFasta(refName, ref, gen.PickLineWidth(r, len(ref)))
 	aln := gen.RenderFasta(recs, gen.PickLineWidth(r, len(ref)))
 	var exp strings.Builder
 	exp.WriteString("query,SNPs\n")
